@@ -31,6 +31,10 @@ pub fn junk_block(idx: u32) -> Blk {
         let tag = (idx.wrapping_mul(16).wrapping_add(k)) & 0xFF_FFFF;
         let name = format!("JK{:06X}JNK", tag);
         r[..11].copy_from_slice(name.as_bytes());
+        if k == 0 {
+            // what a freed directory cluster really holds: entries under names that are in use
+            r[..11].copy_from_slice(JUNK_COMMON_NAMES[(idx % JUNK_COMMON_NAMES.len() as u32) as usize]);
+        }
         r[11] = 0x20;
         r[14] = 0x21; // plausible time/date
         r[16] = 0x21;
@@ -47,8 +51,11 @@ pub fn junk_block(idx: u32) -> Blk {
 
 /// Is this 32-byte record one of the junk records above?
 pub fn is_junk_record(r: &[u8]) -> bool {
-    r.len() >= 32 && &r[0..2] == b"JK" && &r[8..11] == b"JNK" && r[28] == 0x4B && r[29] == 0x4A
+    r.len() >= 32 && ((&r[0..2] == b"JK" && &r[8..11] == b"JNK") || JUNK_COMMON_NAMES.iter().any(|n| &r[0..11] == &n[..])) && r[28] == 0x4B && r[29] == 0x4A && r[30] == 0 && r[31] == 0 && r[14] == 0x21 && r[16] == 0x21 && r[17] == 0x28 && r[22] == 0x21 && r[24] == 0x21 && r[25] == 0x28
 }
+
+/// names the workloads use all the time (first record of every junk block)
+pub const JUNK_COMMON_NAMES: [&[u8; 11]; 6] = [b"Z0      E  ", b"Z1      E  ", b"PRE0    DAT", b"F0      DAT", b"F1      DAT", b"SUB0       "];
 
 pub fn canary_block(idx: u32) -> Blk {
     let mut b = [0xC5u8; 512];
